@@ -15,7 +15,13 @@ replace verif/sim => $V/sim
 replace github.com/vipnode/vipnode/v2 v2.0.0 => $R
 M
 cat $R/go.sum $V/sim/go.sum | sort -u > $D/l2.sum
-printf '{"Replace":{"%s/zz_verif_l2_test.go":"%s/l2/l2_test.go"}}' $R $V > $D/overlay.json
+# yield points before atomic operations (hook H3, generated) + the overlaid test file
+(cd $V/sim && go1.26.8 run ./cmd/instrument $R $D >/dev/null) || { rm -rf $D; exit 2; }
+python3 - $D/overlay.json "$R/zz_verif_l2_test.go" "$V/l2/l2_test.go" <<'PY' || { rm -rf $D; exit 2; }
+import json,sys
+o=json.load(open(sys.argv[1])); o.setdefault("Replace",{})[sys.argv[2]]=sys.argv[3]
+json.dump(o,open(sys.argv[1],"w"))
+PY
 (cd $R && go1.26.8 test -c -tags verif $RACE -overlay $D/overlay.json -modfile $D/l2.mod -o $OUT . ) ; rc=$?
 rm -rf $D
 exit $rc
